@@ -277,6 +277,8 @@ def check_dgram(f, res, own, cur, prev, now, store, over, table):
         if not vl or any(len(v) != 6 for v in vl):
             bad.append(("values-shape", "values is not a non-empty list of 6-byte strings"))
         bad += store.check(ihv, vl, int(f[2]))
+    elif q == b"get_peers":
+        bad += store.check(ihv, [], int(f[2]))                # no values at all: stored peers must not be lost
     return bad
 
 
@@ -398,8 +400,8 @@ def oracle(case, line):
                 vals = [bytes.fromhex(x.lstrip("?")) for x in m.group(1).split(",")]
                 if "?" in m.group(1):
                     bad.append(("values-shape", "value entry is not a 6-byte string"))
-            if m:
-                bad += store.check(ih, vals, int(f[3]))
+            if res.startswith("t="):
+                bad += store.check(ih, vals, int(f[3]))       # also when no values came back: stored peers must not be lost
             nm = re.search(r" n=([0-9a-f]+)", res)
             if nm:
                 bad += check_nodes(bytes.fromhex(nm.group(1)), last if prevk == "D" else None, ih)
